@@ -35,3 +35,5 @@ func TestC14(t *testing.T) {
 
 func TestC17(t *testing.T) { core.Run(t, "C17", GenOpt, ExecOpt) }
 func TestC19(t *testing.T) { core.Run(t, "C19", GenCfg, ExecCfg) }
+
+func TestC17Interleave(t *testing.T) { core.Run(t, "C17", GenInter, ExecInter) }
